@@ -28,7 +28,8 @@ class Unrelated(Exception):
 
 
 CLASSES = {1: Base, 2: Derived, 3: Unrelated, 4: ValueError,
-           5: FileNotFoundError, 6: TimeoutError, 10: Exception}
+           5: FileNotFoundError, 6: TimeoutError, 7: TypeError,
+           8: AttributeError, 10: Exception}
 
 
 # ------------------------------------------------------------------ values
@@ -535,7 +536,7 @@ def rand_beh(rng, hook=None):
     if roll < 0.82:
         return ("abortresp", rng.choice(RESP_POOL))
     if roll < 0.94:
-        return ("throw", rng.choice([1, 2, 3, 3, 5, 6]))
+        return ("throw", rng.choice([1, 2, 3, 3, 5, 6, 7, 8]))
     return rng.choice([("conn",), ("exit",)])
 
 
